@@ -45,7 +45,7 @@ theorem omega_spec_0 (F l Cm Ct T : ℝ) (M : Fin 3 → ℝ) (hF : 0 ≤ F) (hCt
       ∧ 0 ≤ Fp_sum_0 F l Cm Ct T M / Ct ∧ 0 ≤ omega_0 F l Cm Ct T M := by
   have hb := bounds_0 F l Cm Ct T M hF
   have e : omega_0 F l Cm Ct T M = Real.sqrt (Fp_sum_0 F l Cm Ct T M / Ct) := by
-    simp only [cas_defs, cas_real]
+    simp only [cas_defs, cas_real] <;> (try ring1)
   exact ⟨e, div_nonneg hb.1 hCt.le, by rw [e]; exact Real.sqrt_nonneg _⟩
 
 theorem feasible_0_cut (F l Cm Ct T : ℝ) (M : Fin 3 → ℝ) (m0 m1 m2 m3 t0 t1 t2 t3 : ℝ)
@@ -56,7 +56,12 @@ theorem feasible_0_cut (F l Cm Ct T : ℝ) (M : Fin 3 → ℝ) (m0 m1 m2 m3 t0 t
     have := Sat.max4_le h0.2 h1.2 h2.2 h3.2; linarith
   have hC2 : 0 ≤ min (min (min (m0 + t0) (m1 + t1)) (m2 + t2)) (m3 + t3) :=
     Sat.le_min4 h0.1 h1.1 h2.1 h3.1
-  simp only [cas_defs, cas_real]
+  simp only [cas_defs, cas_real] <;> (try ring1)
+  -- robust to a harmless reordering of the sum in the source (t + m instead of m + t)
+  try rw [add_comm t0 m0]
+  try rw [add_comm t1 m1]
+  try rw [add_comm t2 m2]
+  try rw [add_comm t3 m3]
   simp only [hC1, hC2, not_lt.mpr hC1, not_lt.mpr hC2, if_true, false_and, if_false]
   exact Sat.clamp0_id h0.1 h0.2
 
@@ -80,6 +85,10 @@ theorem moment_priority_0_cut (F l Cm Ct T : ℝ) (M : Fin 3 → ℝ) (m0 m1 m2 
   have hmax := Sat.le_max4 (m0 + t) (m1 + t) (m2 + t) (m3 + t)
   have hmin := Sat.min4_le (m0 + t) (m1 + t) (m2 + t) (m3 + t)
   simp only [cas_defs, cas_real, shift, mx, mn]
+  try rw [add_comm t m0]
+  try rw [add_comm t m1]
+  try rw [add_comm t m2]
+  try rw [add_comm t m3]
   by_cases hC1 : 0 ≤ F - max (max (max (m0 + t) (m1 + t)) (m2 + t)) (m3 + t)
   · by_cases hC2 : 0 ≤ min (min (min (m0 + t) (m1 + t)) (m2 + t)) (m3 + t)
     · simp only [hC1, hC2, not_lt.mpr hC1, if_true, false_and, if_false, add_zero]
@@ -109,7 +118,7 @@ theorem omega_spec_1 (F l Cm Ct T : ℝ) (M : Fin 3 → ℝ) (hF : 0 ≤ F) (hCt
       ∧ 0 ≤ Fp_sum_1 F l Cm Ct T M / Ct ∧ 0 ≤ omega_1 F l Cm Ct T M := by
   have hb := bounds_1 F l Cm Ct T M hF
   have e : omega_1 F l Cm Ct T M = Real.sqrt (Fp_sum_1 F l Cm Ct T M / Ct) := by
-    simp only [cas_defs, cas_real]
+    simp only [cas_defs, cas_real] <;> (try ring1)
   exact ⟨e, div_nonneg hb.1 hCt.le, by rw [e]; exact Real.sqrt_nonneg _⟩
 
 theorem feasible_1_cut (F l Cm Ct T : ℝ) (M : Fin 3 → ℝ) (m0 m1 m2 m3 t0 t1 t2 t3 : ℝ)
@@ -120,7 +129,12 @@ theorem feasible_1_cut (F l Cm Ct T : ℝ) (M : Fin 3 → ℝ) (m0 m1 m2 m3 t0 t
     have := Sat.max4_le h0.2 h1.2 h2.2 h3.2; linarith
   have hC2 : 0 ≤ min (min (min (m0 + t0) (m1 + t1)) (m2 + t2)) (m3 + t3) :=
     Sat.le_min4 h0.1 h1.1 h2.1 h3.1
-  simp only [cas_defs, cas_real]
+  simp only [cas_defs, cas_real] <;> (try ring1)
+  -- robust to a harmless reordering of the sum in the source (t + m instead of m + t)
+  try rw [add_comm t0 m0]
+  try rw [add_comm t1 m1]
+  try rw [add_comm t2 m2]
+  try rw [add_comm t3 m3]
   simp only [hC1, hC2, not_lt.mpr hC1, not_lt.mpr hC2, if_true, false_and, if_false]
   exact Sat.clamp0_id h1.1 h1.2
 
@@ -144,6 +158,10 @@ theorem moment_priority_1_cut (F l Cm Ct T : ℝ) (M : Fin 3 → ℝ) (m0 m1 m2 
   have hmax := Sat.le_max4 (m0 + t) (m1 + t) (m2 + t) (m3 + t)
   have hmin := Sat.min4_le (m0 + t) (m1 + t) (m2 + t) (m3 + t)
   simp only [cas_defs, cas_real, shift, mx, mn]
+  try rw [add_comm t m0]
+  try rw [add_comm t m1]
+  try rw [add_comm t m2]
+  try rw [add_comm t m3]
   by_cases hC1 : 0 ≤ F - max (max (max (m0 + t) (m1 + t)) (m2 + t)) (m3 + t)
   · by_cases hC2 : 0 ≤ min (min (min (m0 + t) (m1 + t)) (m2 + t)) (m3 + t)
     · simp only [hC1, hC2, not_lt.mpr hC1, if_true, false_and, if_false, add_zero]
@@ -173,7 +191,7 @@ theorem omega_spec_2 (F l Cm Ct T : ℝ) (M : Fin 3 → ℝ) (hF : 0 ≤ F) (hCt
       ∧ 0 ≤ Fp_sum_2 F l Cm Ct T M / Ct ∧ 0 ≤ omega_2 F l Cm Ct T M := by
   have hb := bounds_2 F l Cm Ct T M hF
   have e : omega_2 F l Cm Ct T M = Real.sqrt (Fp_sum_2 F l Cm Ct T M / Ct) := by
-    simp only [cas_defs, cas_real]
+    simp only [cas_defs, cas_real] <;> (try ring1)
   exact ⟨e, div_nonneg hb.1 hCt.le, by rw [e]; exact Real.sqrt_nonneg _⟩
 
 theorem feasible_2_cut (F l Cm Ct T : ℝ) (M : Fin 3 → ℝ) (m0 m1 m2 m3 t0 t1 t2 t3 : ℝ)
@@ -184,7 +202,12 @@ theorem feasible_2_cut (F l Cm Ct T : ℝ) (M : Fin 3 → ℝ) (m0 m1 m2 m3 t0 t
     have := Sat.max4_le h0.2 h1.2 h2.2 h3.2; linarith
   have hC2 : 0 ≤ min (min (min (m0 + t0) (m1 + t1)) (m2 + t2)) (m3 + t3) :=
     Sat.le_min4 h0.1 h1.1 h2.1 h3.1
-  simp only [cas_defs, cas_real]
+  simp only [cas_defs, cas_real] <;> (try ring1)
+  -- robust to a harmless reordering of the sum in the source (t + m instead of m + t)
+  try rw [add_comm t0 m0]
+  try rw [add_comm t1 m1]
+  try rw [add_comm t2 m2]
+  try rw [add_comm t3 m3]
   simp only [hC1, hC2, not_lt.mpr hC1, not_lt.mpr hC2, if_true, false_and, if_false]
   exact Sat.clamp0_id h2.1 h2.2
 
@@ -208,6 +231,10 @@ theorem moment_priority_2_cut (F l Cm Ct T : ℝ) (M : Fin 3 → ℝ) (m0 m1 m2 
   have hmax := Sat.le_max4 (m0 + t) (m1 + t) (m2 + t) (m3 + t)
   have hmin := Sat.min4_le (m0 + t) (m1 + t) (m2 + t) (m3 + t)
   simp only [cas_defs, cas_real, shift, mx, mn]
+  try rw [add_comm t m0]
+  try rw [add_comm t m1]
+  try rw [add_comm t m2]
+  try rw [add_comm t m3]
   by_cases hC1 : 0 ≤ F - max (max (max (m0 + t) (m1 + t)) (m2 + t)) (m3 + t)
   · by_cases hC2 : 0 ≤ min (min (min (m0 + t) (m1 + t)) (m2 + t)) (m3 + t)
     · simp only [hC1, hC2, not_lt.mpr hC1, if_true, false_and, if_false, add_zero]
@@ -237,7 +264,7 @@ theorem omega_spec_3 (F l Cm Ct T : ℝ) (M : Fin 3 → ℝ) (hF : 0 ≤ F) (hCt
       ∧ 0 ≤ Fp_sum_3 F l Cm Ct T M / Ct ∧ 0 ≤ omega_3 F l Cm Ct T M := by
   have hb := bounds_3 F l Cm Ct T M hF
   have e : omega_3 F l Cm Ct T M = Real.sqrt (Fp_sum_3 F l Cm Ct T M / Ct) := by
-    simp only [cas_defs, cas_real]
+    simp only [cas_defs, cas_real] <;> (try ring1)
   exact ⟨e, div_nonneg hb.1 hCt.le, by rw [e]; exact Real.sqrt_nonneg _⟩
 
 theorem feasible_3_cut (F l Cm Ct T : ℝ) (M : Fin 3 → ℝ) (m0 m1 m2 m3 t0 t1 t2 t3 : ℝ)
@@ -248,7 +275,12 @@ theorem feasible_3_cut (F l Cm Ct T : ℝ) (M : Fin 3 → ℝ) (m0 m1 m2 m3 t0 t
     have := Sat.max4_le h0.2 h1.2 h2.2 h3.2; linarith
   have hC2 : 0 ≤ min (min (min (m0 + t0) (m1 + t1)) (m2 + t2)) (m3 + t3) :=
     Sat.le_min4 h0.1 h1.1 h2.1 h3.1
-  simp only [cas_defs, cas_real]
+  simp only [cas_defs, cas_real] <;> (try ring1)
+  -- robust to a harmless reordering of the sum in the source (t + m instead of m + t)
+  try rw [add_comm t0 m0]
+  try rw [add_comm t1 m1]
+  try rw [add_comm t2 m2]
+  try rw [add_comm t3 m3]
   simp only [hC1, hC2, not_lt.mpr hC1, not_lt.mpr hC2, if_true, false_and, if_false]
   exact Sat.clamp0_id h3.1 h3.2
 
@@ -272,6 +304,10 @@ theorem moment_priority_3_cut (F l Cm Ct T : ℝ) (M : Fin 3 → ℝ) (m0 m1 m2 
   have hmax := Sat.le_max4 (m0 + t) (m1 + t) (m2 + t) (m3 + t)
   have hmin := Sat.min4_le (m0 + t) (m1 + t) (m2 + t) (m3 + t)
   simp only [cas_defs, cas_real, shift, mx, mn]
+  try rw [add_comm t m0]
+  try rw [add_comm t m1]
+  try rw [add_comm t m2]
+  try rw [add_comm t m3]
   by_cases hC1 : 0 ≤ F - max (max (max (m0 + t) (m1 + t)) (m2 + t)) (m3 + t)
   · by_cases hC2 : 0 ≤ min (min (min (m0 + t) (m1 + t)) (m2 + t)) (m3 + t)
     · simp only [hC1, hC2, not_lt.mpr hC1, if_true, false_and, if_false, add_zero]
@@ -320,7 +356,7 @@ theorem F_thrust_spec (F l Cm Ct T : ℝ) (M : Fin 3 → ℝ) :
   refine ⟨?_, ?_, ?_, ?_⟩
   · simp only [cas_defs, cas_real]
     split_ifs <;> norm_num <;> ring
-  all_goals simp only [cas_defs, cas_real]
+  all_goals simp only [cas_defs, cas_real] <;> (try ring1)
 
 /-- range-limited moment: component-wise clamp to ±l·(4F)/2 -/
 theorem M_sat_bounds (F l Cm Ct T : ℝ) (M : Fin 3 → ℝ) (hF : 0 ≤ F) (hl : 0 ≤ l) :
@@ -337,7 +373,7 @@ theorem M_sat_id (F l Cm Ct T : ℝ) (M : Fin 3 → ℝ)
     (h0 : |M 0| ≤ l * (4 * F) / 2) (h1 : |M 1| ≤ l * (4 * F) / 2) (h2 : |M 2| ≤ l * (4 * F) / 2) :
     M_sat_0 F l Cm Ct T M = M 0 ∧ M_sat_1 F l Cm Ct T M = M 1 ∧ M_sat_2 F l Cm Ct T M = M 2 := by
   rw [abs_le] at h0 h1 h2
-  refine ⟨?_, ?_, ?_⟩ <;> simp only [cas_defs, cas_real]
+  refine ⟨?_, ?_, ?_⟩ <;> simp only [cas_defs, cas_real] <;> (try ring1)
   · rw [if_neg (not_lt.mpr h0.2), if_neg (not_lt.mpr h0.1)]
   · rw [if_neg (not_lt.mpr h1.2), if_neg (not_lt.mpr h1.1)]
   · rw [if_neg (not_lt.mpr h2.2), if_neg (not_lt.mpr h2.1)]
